@@ -433,13 +433,13 @@ def part_static(ctx, rng):
 
 
 # ============================================================================ part 2: histories
-def pc_cfg(mech, proj, eng, projects, flags, kinds, maxlen, edit, keep, emitfrom, invs, pe=None, vars_=("ta", "tb")):
+def pc_cfg(mech, proj, eng, projects, flags, kinds, maxlen, edit, keep, emitfrom, invs, pe=None, vars_=("ta", "tb"), emitmod=1, ris=("TRUE", "FALSE")):
     S = lambda xs: "{%s}" % ", ".join('"%s"' % x for x in xs)  # noqa: E731
     return (
         "SPECIFICATION Spec\nCONSTANTS\n PE = %s\n PROJ = %s\n ENG = %s\n PROJECTS = {%s}\n FLAGS <- %s\n VARS = %s\n KINDS = %s\n"
-        " MaxLen = %d\n Mech <- %s\n AllowEdit = %s\n KeepHist = %s\n EmitFrom = %d\n%sCHECK_DEADLOCK FALSE\n"
+        " MaxLen = %d\n Mech <- %s\n AllowEdit = %s\n KeepHist = %s\n EmitFrom = %d\n EmitMod = %d\n RIS = {%s}\n%sCHECK_DEADLOCK FALSE\n"
         % (S(pe or X.PE), S(proj), S(eng), ", ".join(projects), flags, S(vars_), S(kinds), maxlen, mech,
-           "TRUE" if edit else "FALSE", "TRUE" if keep else "FALSE", emitfrom, "".join("INVARIANT %s\n" % i for i in invs))
+           "TRUE" if edit else "FALSE", "TRUE" if keep else "FALSE", emitfrom, emitmod, ", ".join(ris), "".join("INVARIANT %s\n" % i for i in invs))
     )
 
 
@@ -465,7 +465,7 @@ def gen_histories(ctx, what, **kw):
             if i > 0:
                 evs.append(alpha[i - 1])
             else:
-                evs.append({"act": "Edit", "pe": "-", "proj": "-", "eng": "-", "project": True, "cache": False, "override": False, "var": "-", "target": -i})
+                evs.append({"act": "Edit", "pe": "-", "proj": "-", "eng": "-", "project": True, "cache": False, "override": False, "var": "-", "target": -i, "ri": False})
         out.append((evs, [sorted(b) for b in h[2]]))
     return out, len(alpha)
 
@@ -473,8 +473,8 @@ def gen_histories(ctx, what, **kw):
 def hist_key(evs):
     return "/".join(
         "E%d" % e["target"] if e["act"] == "Edit" else
-        "%s%s:%s:%s:%s:%s%s%s:%s" % ("plot." if e.get("via") else "", e["act"], e["pe"], e["proj"], e["eng"], "P" if e["project"] else "p",
-                                       "C" if e["cache"] else "c", "O" if e["override"] else "o", e["var"])
+        "%s%s:%s:%s:%s:%s%s%s%s:%s" % ("plot." if e.get("via") else "", e["act"], e["pe"], e["proj"], e["eng"], "P" if e["project"] else "p",
+                                         "C" if e["cache"] else "c", "O" if e["override"] else "o", "I" if e.get("ri") else "", e["var"])
         for e in evs)
 
 
@@ -512,7 +512,7 @@ def part_history(ctx, rng, ents, gen, cases):
                        what="PlotCache(MechIntended), %s family: length <= 4" % fam, workers=8, timeout=1500)
     # the machine distinguishes the mechanisms: the observed one and the pre-5278ad57 line cache break the clauses
     for mech, kinds in (("MechObserved", ["gdf", "poly", "line"]), ("MechLinesOld", ["line"]), ("MechDataInCache", ["gdf"]), ("MechLineAliased", ["line"]),
-                        ("MechSideLast", ["gdf", "poly"]), ("MechKeyNoProject", ["gdf"])):
+                        ("MechSideLast", ["gdf", "poly"]), ("MechKeyNoProject", ["gdf"]), ("MechPolyCachedOnIndices", ["poly"])):
         r = ctx.tlc("PlotCache", pc_cfg(mech, maxlen=3, edit=(mech in ("MechObserved", "MechLineAliased")), keep=False, emitfrom=9, invs=["NoBad"],
                                         proj=["none", "rob180"], eng=["sp"], projects=["TRUE", "FALSE"] if mech == "MechKeyNoProject" else ["TRUE"],
                                         flags="FlagsTwo", kinds=kinds),
@@ -550,14 +550,19 @@ def part_history(ctx, rng, ents, gen, cases):
                                              proj=["none", "rob", "rob180"], eng=["sp", "gp"], projects=["TRUE", "FALSE"], flags="FlagsTwo", kinds=["gdf", "poly", "line"])
         add(hs)
         hs, n_alpha["gdf3"] = gen_histories(ctx, "GeoDataFrame family, all histories of length 3", maxlen=3, edit=True, emitfrom=3,
-                                            proj=["none", "rob180", "ortho"], eng=["sp"], projects=["TRUE"], flags="FlagsTwo", kinds=["gdf"])
+                                            proj=["none", "rob180", "ortho"], eng=["sp"], projects=["TRUE"], flags="FlagsTwo", kinds=["gdf"], vars_=("ta", "tb", "tc"), emitmod=8)
         add(hs, cap_clean=25000)
         hs, n_alpha["gdf3p"] = gen_histories(ctx, "GeoDataFrame family with project=False, one engine, length 3", maxlen=3, edit=False, emitfrom=3,
                                              proj=["rob", "rob180"], eng=["sp"], projects=["TRUE", "FALSE"], flags="FlagsTwo", kinds=["gdf"], pe=["exclude", "ignore"], vars_=("ta",))
         add(hs, cap_clean=8000)
         hs, n_alpha["poly3"] = gen_histories(ctx, "PolyCollection family, all histories of length 3", maxlen=3, edit=True, emitfrom=3,
-                                             proj=["none", "rob180"], eng=["sp"], projects=["TRUE"], flags="FlagsTwo", kinds=["poly"])
+                                             proj=["none", "rob180"], eng=["sp"], projects=["TRUE"], flags="FlagsTwo", kinds=["poly"], vars_=("ta", "tb", "tc"), emitmod=4)
         add(hs, cap_clean=25000)
+        for fam in ("gdf", "poly"):
+            hs, n_alpha[fam + "4"] = gen_histories(ctx, "%s family, grid- and data-level conversions of three variables over ONE cache key, all histories of length 4" % fam,
+                                                   maxlen=4, edit=False, emitfrom=4, proj=["none"], eng=["sp"], projects=["TRUE"], flags="FlagsTwo", kinds=[fam],
+                                                   pe=["exclude"], vars_=("ta", "tb", "tc"))
+            add(hs, cap_clean=6000)
         hs, n_alpha["line3"] = gen_histories(ctx, "LineCollection family, all histories of length 3", maxlen=3, edit=True, emitfrom=3,
                                              proj=["none", "pc180", "rob180"], eng=["sp"], projects=["TRUE"], flags="FlagsThree", kinds=["line"])
         add(hs)
@@ -570,11 +575,16 @@ def part_history(ctx, rng, ents, gen, cases):
                                                proj=["rob180"], eng=["sp"], projects=["TRUE", "FALSE"], flags="FlagsTwo", kinds=["gdf"], pe=["exclude", "ignore"], vars_=("ta",))
         add(hs)
         hs, n_alpha["gdf3"] = gen_histories(ctx, "GeoDataFrame family, histories of length 3 (one engine)", maxlen=3, edit=True, emitfrom=3,
-                                            proj=["none", "rob180"], eng=["sp"], projects=["TRUE"], flags="FlagsTwo", kinds=["gdf"])
-        add(hs, cap_clean=1500)
+                                            proj=["none", "rob180"], eng=["sp"], projects=["TRUE"], flags="FlagsTwo", kinds=["gdf"], vars_=("ta", "tb", "tc"), emitmod=20)
+        add(hs, cap_clean=1200)
         hs, n_alpha["poly3"] = gen_histories(ctx, "PolyCollection family, histories of length 3", maxlen=3, edit=True, emitfrom=3,
-                                             proj=["none", "ortho"], eng=["sp"], projects=["TRUE"], flags="FlagsTwo", kinds=["poly"])
-        add(hs, cap_clean=1500)
+                                             proj=["none", "ortho"], eng=["sp"], projects=["TRUE"], flags="FlagsTwo", kinds=["poly"], vars_=("ta", "tb", "tc"), emitmod=40)
+        add(hs, cap_clean=1200)
+        for fam in ("gdf", "poly"):
+            hs, n_alpha[fam + "4"] = gen_histories(ctx, "%s family, grid- and data-level conversions of three variables over ONE cache key, histories of length 4" % fam,
+                                                   maxlen=4, edit=False, emitfrom=4, proj=["none"], eng=["sp"], projects=["TRUE"], flags="FlagsTwo", kinds=[fam],
+                                                   pe=["split" if fam == "poly" else "exclude"], vars_=("ta", "tb", "tc"), emitmod=8)
+            add(hs, cap_clean=400)
         hs, n_alpha["line3"] = gen_histories(ctx, "LineCollection family, all histories of length 3", maxlen=3, edit=True, emitfrom=3,
                                              proj=["none", "pc180"], eng=["sp"], projects=["TRUE"], flags="FlagsThree", kinds=["line"])
         add(hs)
@@ -708,7 +718,7 @@ def part_history(ctx, rng, ents, gen, cases):
         ctx.count(1, hist_key(job["events"]) if len(job["events"]) >= 2 else None)
     pred_total = sum(1 for k in keys for b in hists[k][1] if b)
     ctx.note("history", {"alphabet_sizes": n_alpha, "histories_replayed": len(jobs), "steps": sum(len(j["events"]) for j in jobs),
-                         "by_length": {str(n): sum(1 for j in jobs if len(j["events"]) == n) for n in (1, 2, 3, 5)},
+                         "by_length": {str(n): sum(1 for j in jobs if len(j["events"]) == n) for n in (1, 2, 3, 4, 5)},
                          "failing_step_clauses": n_fail, "steps_ranked_bad_by_MechHistoric": pred_total,
                          "model_drift_predicted_but_not_observed": len(drift), "meshes": [catalog.eid(e) for e in pool],
                          "distinct_object_classes": len(cls)})
